@@ -75,6 +75,7 @@ type profile struct {
 	lag                                                               bool // keep one follower cut off for long stretches (forces MsgSnap after compaction)
 	paged                                                             bool // MaxSizePerMsg = 0: at most one entry per MsgApp (acks of old-term indexes, partial appends)
 	member                                                            int  // Stage D: weight of add/remove/promote events; such schedules are checked by the safety predicates only
+	prevote                                                           bool // Config.PreVote (+CheckQuorum): library features raftexample leaves off; outside the model, safety predicates only
 }
 
 var profiles = []profile{
@@ -88,6 +89,8 @@ var profiles = []profile{
 	{name: "member", wTick: 22, wDeliver: 55, wDrop: 3, wPropose: 8, wCampaign: 3, wCrash: 2, wCompact: 2, pDup: 0.1, member: 6},
 	{name: "member-partition", wTick: 24, wDeliver: 50, wDrop: 4, wPropose: 8, wCampaign: 3, wCrash: 2, wCompact: 2, pDup: 0.15, partition: 40, pHeal: 0.4, member: 6},
 	{name: "reorder", wTick: 12, wDeliver: 40, wDrop: 2, wPropose: 10, wCampaign: 5, wCrash: 2, wCompact: 2, pDup: 0.5},
+	{name: "prevote-reorder", wTick: 14, wDeliver: 38, wDrop: 3, wPropose: 8, wCampaign: 10, wCrash: 2, wCompact: 1, pDup: 0.5, prevote: true},
+	{name: "prevote-partition", wTick: 25, wDeliver: 45, wDrop: 4, wPropose: 8, wCampaign: 8, wCrash: 2, wCompact: 1, pDup: 0.3, partition: 30, pHeal: 0.4, prevote: true},
 }
 
 type poolMsg struct {
@@ -132,6 +135,9 @@ func (s *sim) newRawNode(nd *simNode) *raft.RawNode {
 	}
 	if s.prof.paged {
 		c.MaxSizePerMsg = 0 // "0 for at most one entry per message"; every other setting stays raftexample's
+	}
+	if s.prof.prevote {
+		c.PreVote = true // the library's pre-vote phase (raftexample leaves it off): delayed / duplicated pre-vote responses
 	}
 	rn, err := raft.NewRawNode(c)
 	if err != nil {
@@ -478,7 +484,7 @@ func (s *sim) event(kind string, i int, call func() []string) {
 		}
 		line = fmt.Sprintf("E %s %d %s %s %s", kind, i, strings.Join(inputs, ";"), proj, o)
 	}()
-	if s.prof.member > 0 && strings.HasPrefix(line, "E ") {
+	if (s.prof.member > 0 || s.prof.prevote) && strings.HasPrefix(line, "E ") {
 		line = "# " + line // Stage D schedules are outside the lock-step: the driver skips them
 	}
 	fmt.Fprintln(s.w, line)
